@@ -1,4 +1,13 @@
+/-
+  C05 — closed-form quantiles: `cdf (inverse_cdf p) = p`, range, strict monotonicity
+  (theorems over the regenerated model, carrier ℝ, under the constructor's acceptance
+  predicate and `0 < p < 1`, which routes around the `panicV` branch of the generated code).
+  Families: Uniform, Exp, Cauchy, Laplace, Gumbel, Pareto, Weibull, Triangular.
+  "never NaN" has no content over ℝ and is not stated.  Range is stated against the finite
+  bounds only (`Exp.max`, `Cauchy.min`, … are `RFun.inf`/`negInf`, junk over ℝ).
+-/
 import Statrs.Real.Simp
+import Statrs.Lemmas.Quantile
 import Statrs.Gen.D_uniform
 import Statrs.Gen.D_exponential
 import Statrs.Gen.D_cauchy
@@ -8,14 +17,461 @@ import Statrs.Gen.D_pareto
 import Statrs.Gen.D_triangular
 import Statrs.Gen.D_weibull
 import Mathlib.Tactic
+set_option linter.unusedVariables false
 namespace Statrs.Props.C05
-open Statrs Statrs.Gen
+open Statrs Statrs.Gen Statrs.Lemmas.Quantile
 
+/-! ## Uniform -/
+
+/-- closed form of the quantile on the open unit interval (routes around the `panicV` branch) -/
+theorem uniform_inverse_cdf_eq (d : Uniform ℝ) (p : ℝ) (hp0 : 0 < p) (hp1 : p < 1) :
+    Uniform.inverse_cdf d p = (d.f_max - d.f_min) * p + d.f_min := by
+  unfold Uniform.inverse_cdf
+  rfun_norm
+  have h1 : ¬ ¬ ((0.0:ℝ) ≤ p ∧ p ≤ (1.0:ℝ)) := by norm_num; exact ⟨hp0.le, hp1.le⟩
+  have h2 : ¬ p = (0.0:ℝ) := by norm_num; exact hp0.ne'
+  have h3 : ¬ p = (1.0:ℝ) := by norm_num; exact hp1.ne
+  rw [if_neg h1, if_neg h2, if_neg h3]
+
+/-- Uniform: cdf ∘ inverse_cdf = id on (0,1) -/
 theorem uniform_cdf_inverse_cdf (d : Uniform ℝ) (h : d.f_min < d.f_max) (p : ℝ) (hp0 : 0 < p) (hp1 : p < 1) :
     Uniform.cdf d (Uniform.inverse_cdf d p) = p := by
-  unfold Uniform.cdf Uniform.inverse_cdf
+  rw [uniform_inverse_cdf_eq d p hp0 hp1]
+  unfold Uniform.cdf
+  have hw : 0 < d.f_max - d.f_min := by linarith
+  have h1 : ¬ ((d.f_max - d.f_min) * p + d.f_min ≤ d.f_min) := by nlinarith
+  have h2 : ¬ (d.f_max ≤ (d.f_max - d.f_min) * p + d.f_min) := by nlinarith
+  rw [if_neg h1, if_neg h2]
+  field_simp
+  ring
+
+/-- Uniform: the quantile lies in [min, max] -/
+theorem uniform_inverse_cdf_mem (d : Uniform ℝ) (h : d.f_min < d.f_max) (p : ℝ) (hp0 : 0 < p) (hp1 : p < 1) :
+    Uniform.min d ≤ Uniform.inverse_cdf d p ∧ Uniform.inverse_cdf d p ≤ Uniform.max d := by
+  rw [uniform_inverse_cdf_eq d p hp0 hp1]
+  unfold Uniform.min Uniform.max
+  constructor <;> nlinarith
+
+/-- Uniform: the quantile is strictly increasing on (0,1) -/
+theorem uniform_inverse_cdf_strictMono (d : Uniform ℝ) (h : d.f_min < d.f_max) (p q : ℝ) (hp0 : 0 < p) (hpq : p < q) (hq1 : q < 1) :
+    Uniform.inverse_cdf d p < Uniform.inverse_cdf d q := by
+  rw [uniform_inverse_cdf_eq d p hp0 (by linarith), uniform_inverse_cdf_eq d q (by linarith) hq1]
+  nlinarith
+
+example : ∃ d : Uniform ℝ, d.f_min < d.f_max := ⟨⟨0, 1⟩, by norm_num⟩
+
+/-! ## Exp -/
+
+/-- Exp: closed form of the quantile on (0,1) (routes around the panic branch) -/
+theorem exp_inverse_cdf_eq (d : Exp ℝ) (p : ℝ) :
+    Exp.inverse_cdf d p = -Real.log (1 - p) / d.f_rate := by
+  unfold Exp.inverse_cdf
   rfun_norm
+  ring_nf
+
+/-- Exp: cdf ∘ inverse_cdf = id on (0,1) -/
+theorem exp_cdf_inverse_cdf (d : Exp ℝ) (h : 0 < d.f_rate) (p : ℝ) (hp0 : 0 < p) (hp1 : p < 1) :
+    Exp.cdf d (Exp.inverse_cdf d p) = p := by
+  rw [exp_inverse_cdf_eq]
+  unfold Exp.cdf
+  rfun_norm
+  have hl : Real.log (1 - p) < 0 := Real.log_neg (by linarith) (by linarith)
+  have h1 : ¬ (-Real.log (1 - p) / d.f_rate < (0.0:ℝ)) := by
+    norm_num
+    exact div_nonneg (by linarith) h.le
+  rw [if_neg h1]
+  have : -d.f_rate * (-Real.log (1 - p) / d.f_rate) = Real.log (1 - p) := by field_simp
+  rw [this, Real.exp_log (by linarith)]
   norm_num
-  sorry
+
+/-- Exp: the quantile respects the finite support bound(s) -/
+theorem exp_inverse_cdf_mem (d : Exp ℝ) (h : 0 < d.f_rate) (p : ℝ) (_hp0 : 0 < p) (hp1 : p < 1) :
+    Exp.min d ≤ Exp.inverse_cdf d p := by
+  rw [exp_inverse_cdf_eq]
+  unfold Exp.min
+  have hl : Real.log (1 - p) < 0 := Real.log_neg (by linarith) (by linarith)
+  norm_num
+  exact div_nonneg (by linarith) h.le
+
+/-- Exp: the quantile is strictly increasing on (0,1) -/
+theorem exp_inverse_cdf_strictMono (d : Exp ℝ) (h : 0 < d.f_rate) (p q : ℝ) (hp0 : 0 < p) (hpq : p < q) (hq1 : q < 1) :
+    Exp.inverse_cdf d p < Exp.inverse_cdf d q := by
+  rw [exp_inverse_cdf_eq, exp_inverse_cdf_eq]
+  have hl : Real.log (1 - q) < Real.log (1 - p) := Real.log_lt_log (by linarith) (by linarith)
+  exact div_lt_div_of_pos_right (by linarith) h
+
+example : ∃ d : Exp ℝ, 0 < d.f_rate := ⟨⟨1⟩, by norm_num⟩
+
+/-! ## Cauchy -/
+
+/-- Cauchy: closed form of the quantile on (0,1) (routes around the panic branch) -/
+theorem cauchy_inverse_cdf_eq (d : Cauchy ℝ) (p : ℝ) (hp0 : 0 < p) (hp1 : p < 1) :
+    Cauchy.inverse_cdf d p = d.f_location + d.f_scale * Real.tan (Real.pi * (p - 1/2)) := by
+  unfold Cauchy.inverse_cdf
+  rfun_norm
+  have h1 : ¬ ¬ ((0.0:ℝ) ≤ p ∧ p ≤ (1.0:ℝ)) := by norm_num; exact ⟨hp0.le, hp1.le⟩
+  rw [if_neg h1]
+  norm_num
+
+/-- Cauchy: cdf ∘ inverse_cdf = id on (0,1) -/
+theorem cauchy_cdf_inverse_cdf (d : Cauchy ℝ) (h : 0 < d.f_scale) (p : ℝ) (hp0 : 0 < p) (hp1 : p < 1) :
+    Cauchy.cdf d (Cauchy.inverse_cdf d p) = p := by
+  rw [cauchy_inverse_cdf_eq d p hp0 hp1]
+  unfold Cauchy.cdf
+  rfun_norm
+  have hpi := Real.pi_pos
+  have e : (d.f_location + d.f_scale * Real.tan (Real.pi * (p - 1/2)) - d.f_location) / d.f_scale
+      = Real.tan (Real.pi * (p - 1/2)) := by field_simp; ring
+  rw [e, Real.arctan_tan (by nlinarith) (by nlinarith)]
+  field_simp
+  norm_num
+
+/-- Cauchy: the quantile is strictly increasing on (0,1) -/
+theorem cauchy_inverse_cdf_strictMono (d : Cauchy ℝ) (h : 0 < d.f_scale) (p q : ℝ) (hp0 : 0 < p) (hpq : p < q) (hq1 : q < 1) :
+    Cauchy.inverse_cdf d p < Cauchy.inverse_cdf d q := by
+  rw [cauchy_inverse_cdf_eq d p hp0 (by linarith), cauchy_inverse_cdf_eq d q (by linarith) hq1]
+  have hpi := Real.pi_pos
+  have : Real.tan (Real.pi * (p - 1/2)) < Real.tan (Real.pi * (q - 1/2)) :=
+    Real.tan_lt_tan_of_lt_of_lt_pi_div_two (by nlinarith) (by nlinarith) (by nlinarith)
+  nlinarith
+
+example : ∃ d : Cauchy ℝ, 0 < d.f_scale := ⟨⟨0, 1⟩, by norm_num⟩
+
+/-! ## Laplace -/
+
+/-- Laplace: closed form of the quantile on (0,1) (routes around the panic branch) -/
+theorem laplace_inverse_cdf_eq (d : Laplace ℝ) (p : ℝ) (hp0 : 0 < p) (hp1 : p < 1) :
+    Laplace.inverse_cdf d p =
+      if p ≤ 1/2 then d.f_location + d.f_scale * Real.log (2 * p)
+      else d.f_location - d.f_scale * Real.log (2 - 2 * p) := by
+  unfold Laplace.inverse_cdf
+  rfun_norm
+  have h1 : ¬ (p ≤ (0.0:ℝ) ∨ (1.0:ℝ) ≤ p) := by norm_num; exact ⟨hp0, hp1⟩
+  rw [if_neg h1]
+  norm_num
+
+/-- Laplace: cdf ∘ inverse_cdf = id on (0,1) -/
+theorem laplace_cdf_inverse_cdf (d : Laplace ℝ) (h : 0 < d.f_scale) (p : ℝ) (hp0 : 0 < p) (hp1 : p < 1) :
+    Laplace.cdf d (Laplace.inverse_cdf d p) = p := by
+  rw [laplace_inverse_cdf_eq d p hp0 hp1]
+  unfold Laplace.cdf
+  rfun_norm
+  split_ifs with hp hx hx
+  · -- p ≤ 1/2 and location ≤ x : forces log (2p) = 0
+    have hl : Real.log (2 * p) ≤ 0 := Real.log_nonpos (by linarith) (by linarith)
+    have hl0 : Real.log (2 * p) = 0 := by nlinarith
+    rw [hl0]; norm_num
+    have := Real.eq_one_of_pos_of_log_eq_zero (by linarith) hl0
+    linarith
+  · have hl : Real.log (2 * p) ≤ 0 := Real.log_nonpos (by linarith) (by linarith)
+    have e : d.f_location + d.f_scale * Real.log (2 * p) - d.f_location = d.f_scale * Real.log (2 * p) := by ring
+    rw [e, abs_of_nonpos (by nlinarith)]
+    have e2 : - -(d.f_scale * Real.log (2 * p)) / d.f_scale = Real.log (2 * p) := by field_simp
+    rw [e2, Real.exp_log (by linarith)]
+    norm_num
+  · have hl : Real.log (2 - 2 * p) < 0 := Real.log_neg (by linarith) (by linarith)
+    have e : d.f_location - d.f_scale * Real.log (2 - 2 * p) - d.f_location = -(d.f_scale * Real.log (2 - 2 * p)) := by ring
+    rw [e, abs_of_nonneg (by nlinarith)]
+    have e2 : - -(d.f_scale * Real.log (2 - 2 * p)) / d.f_scale = Real.log (2 - 2 * p) := by field_simp
+    rw [e2, Real.exp_log (by linarith)]
+    norm_num; ring
+  · exfalso
+    have hl : Real.log (2 - 2 * p) < 0 := Real.log_neg (by linarith) (by linarith)
+    apply hx; nlinarith
+
+/-- Laplace: the quantile is strictly increasing on (0,1) -/
+theorem laplace_inverse_cdf_strictMono (d : Laplace ℝ) (h : 0 < d.f_scale) (p q : ℝ) (hp0 : 0 < p) (hpq : p < q) (hq1 : q < 1) :
+    Laplace.inverse_cdf d p < Laplace.inverse_cdf d q := by
+  rw [laplace_inverse_cdf_eq d p hp0 (by linarith), laplace_inverse_cdf_eq d q (by linarith) hq1]
+  split_ifs with h1 h2 h2
+  · have : Real.log (2 * p) < Real.log (2 * q) := Real.log_lt_log (by linarith) (by linarith)
+    nlinarith
+  · have a : Real.log (2 * p) ≤ 0 := Real.log_nonpos (by linarith) (by linarith)
+    have b : Real.log (2 - 2 * q) < 0 := Real.log_neg (by linarith) (by linarith)
+    nlinarith
+  · exfalso; linarith
+  · have : Real.log (2 - 2 * q) < Real.log (2 - 2 * p) := Real.log_lt_log (by linarith) (by linarith)
+    nlinarith
+
+example : ∃ d : Laplace ℝ, 0 < d.f_scale := ⟨⟨0, 1⟩, by norm_num⟩
+
+/-! ## Gumbel -/
+
+/-- Gumbel: closed form of the quantile on (0,1) (routes around the panic branch) -/
+theorem gumbel_inverse_cdf_eq (d : Gumbel ℝ) (p : ℝ) (hp0 : 0 < p) (hp1 : p < 1) :
+    Gumbel.inverse_cdf d p = d.f_location - d.f_scale * Real.log (-Real.log p) := by
+  unfold Gumbel.inverse_cdf
+  rfun_norm
+  have h1 : ¬ (p ≤ (0.0:ℝ)) := by norm_num; exact hp0
+  have h2 : ¬ ((1.0:ℝ) ≤ p) := by norm_num; exact hp1
+  rw [if_neg h1, if_neg h2]
+
+/-- Gumbel: cdf ∘ inverse_cdf = id on (0,1) -/
+theorem gumbel_cdf_inverse_cdf (d : Gumbel ℝ) (h : 0 < d.f_scale) (p : ℝ) (hp0 : 0 < p) (hp1 : p < 1) :
+    Gumbel.cdf d (Gumbel.inverse_cdf d p) = p := by
+  rw [gumbel_inverse_cdf_eq d p hp0 hp1]
+  unfold Gumbel.cdf
+  rfun_norm
+  have hl : Real.log p < 0 := Real.log_neg hp0 hp1
+  have e : -(d.f_location - d.f_scale * Real.log (-Real.log p) - d.f_location) / d.f_scale
+      = Real.log (-Real.log p) := by field_simp; ring
+  rw [e, Real.exp_log (by linarith), neg_neg, Real.exp_log hp0]
+
+/-- Gumbel: the quantile is strictly increasing on (0,1) -/
+theorem gumbel_inverse_cdf_strictMono (d : Gumbel ℝ) (h : 0 < d.f_scale) (p q : ℝ) (hp0 : 0 < p) (hpq : p < q) (hq1 : q < 1) :
+    Gumbel.inverse_cdf d p < Gumbel.inverse_cdf d q := by
+  rw [gumbel_inverse_cdf_eq d p hp0 (by linarith), gumbel_inverse_cdf_eq d q (by linarith) hq1]
+  have a : Real.log p < Real.log q := Real.log_lt_log hp0 hpq
+  have b : Real.log q < 0 := Real.log_neg (by linarith) hq1
+  have : Real.log (-Real.log q) < Real.log (-Real.log p) := Real.log_lt_log (by linarith) (by linarith)
+  nlinarith
+
+example : ∃ d : Gumbel ℝ, 0 < d.f_scale := ⟨⟨0, 1⟩, by norm_num⟩
+
+/-! ## Pareto -/
+
+/-- Pareto: closed form of the quantile on (0,1) (routes around the panic branch) -/
+theorem pareto_inverse_cdf_eq (d : Pareto ℝ) (p : ℝ) (hp0 : 0 < p) (hp1 : p < 1) :
+    Pareto.inverse_cdf d p = d.f_scale * (1 - p) ^ (-1 / d.f_shape) := by
+  unfold Pareto.inverse_cdf
+  rfun_norm
+  have h1 : ¬ ¬ ((0.0:ℝ) ≤ p ∧ p ≤ (1.0:ℝ)) := by norm_num; exact ⟨hp0.le, hp1.le⟩
+  rw [if_neg h1]
+  norm_num
+
+theorem pareto_one_lt_factor (d : Pareto ℝ) (ha : 0 < d.f_shape) (p : ℝ) (hp0 : 0 < p) (hp1 : p < 1) :
+    1 < (1 - p : ℝ) ^ (-1 / d.f_shape) := by
+  apply Real.one_lt_rpow_of_pos_of_lt_one_of_neg (by linarith) (by linarith)
+  exact div_neg_of_neg_of_pos (by norm_num) ha
+
+/-- Pareto: the quantile respects the finite support bound(s) -/
+theorem pareto_inverse_cdf_mem (d : Pareto ℝ) (hs : 0 < d.f_scale) (ha : 0 < d.f_shape) (p : ℝ) (hp0 : 0 < p) (hp1 : p < 1) :
+    Pareto.min d ≤ Pareto.inverse_cdf d p := by
+  rw [pareto_inverse_cdf_eq d p hp0 hp1]
+  unfold Pareto.min
+  have := pareto_one_lt_factor d ha p hp0 hp1
+  nlinarith
+
+/-- Pareto: cdf ∘ inverse_cdf = id on (0,1) -/
+theorem pareto_cdf_inverse_cdf (d : Pareto ℝ) (hs : 0 < d.f_scale) (ha : 0 < d.f_shape) (p : ℝ) (hp0 : 0 < p) (hp1 : p < 1) :
+    Pareto.cdf d (Pareto.inverse_cdf d p) = p := by
+  rw [pareto_inverse_cdf_eq d p hp0 hp1]
+  unfold Pareto.cdf
+  rfun_norm
+  have hf := pareto_one_lt_factor d ha p hp0 hp1
+  have h1 : ¬ (d.f_scale * (1 - p) ^ (-1 / d.f_shape) < d.f_scale) := by nlinarith
+  rw [if_neg h1]
+  have hq : (0:ℝ) < 1 - p := by linarith
+  have e : d.f_scale / (d.f_scale * (1 - p) ^ (-1 / d.f_shape)) = (1 - p) ^ (1 / d.f_shape) := by
+    rw [show (-1 / d.f_shape) = -(1 / d.f_shape) by ring, Real.rpow_neg hq.le]
+    field_simp
+  rw [e, ← Real.rpow_mul hq.le]
+  have : 1 / d.f_shape * d.f_shape = 1 := by field_simp
+  rw [this, Real.rpow_one]
+  norm_num
+
+/-- Pareto: the quantile is strictly increasing on (0,1) -/
+theorem pareto_inverse_cdf_strictMono (d : Pareto ℝ) (hs : 0 < d.f_scale) (ha : 0 < d.f_shape) (p q : ℝ) (hp0 : 0 < p) (hpq : p < q) (hq1 : q < 1) :
+    Pareto.inverse_cdf d p < Pareto.inverse_cdf d q := by
+  rw [pareto_inverse_cdf_eq d p hp0 (by linarith), pareto_inverse_cdf_eq d q (by linarith) hq1]
+  have hneg : -1 / d.f_shape < 0 := div_neg_of_neg_of_pos (by norm_num) ha
+  have : (1 - p : ℝ) ^ (-1 / d.f_shape) < (1 - q) ^ (-1 / d.f_shape) :=
+    Real.rpow_lt_rpow_of_neg (by linarith) (by linarith) hneg
+  nlinarith
+
+example : ∃ d : Pareto ℝ, 0 < d.f_scale ∧ 0 < d.f_shape := ⟨⟨1, 1⟩, by norm_num⟩
+
+/-! ## Weibull
+The constructor stores `scale^(-shape)` in the field `f_scale_pow_shape_inv`; the hypothesis `hi` records that. -/
+
+/-- Weibull: closed form of the quantile on (0,1) (routes around the panic branch) -/
+theorem weibull_inverse_cdf_eq (d : Weibull ℝ) (p : ℝ) (hp0 : 0 < p) (hp1 : p < 1) :
+    Weibull.inverse_cdf d p = (-(Real.log (1 - p) / d.f_scale_pow_shape_inv)) ^ (1 / d.f_shape) := by
+  unfold Weibull.inverse_cdf
+  rfun_norm
+  have h1 : ¬ ¬ ((0.0:ℝ) ≤ p ∧ p ≤ (1.0:ℝ)) := by norm_num; exact ⟨hp0.le, hp1.le⟩
+  rw [if_neg h1]
+  norm_num
+  ring_nf
+
+theorem weibull_base_pos (d : Weibull ℝ) (hk : 0 < d.f_shape) (hs : 0 < d.f_scale)
+    (hi : d.f_scale_pow_shape_inv = d.f_scale ^ (-d.f_shape)) (p : ℝ) (hp0 : 0 < p) (hp1 : p < 1) :
+    0 < -(Real.log (1 - p) / d.f_scale_pow_shape_inv) := by
+  have hl : Real.log (1 - p) < 0 := Real.log_neg (by linarith) (by linarith)
+  have : 0 < d.f_scale_pow_shape_inv := by rw [hi]; exact Real.rpow_pos_of_pos hs _
+  rw [neg_pos]
+  exact div_neg_of_neg_of_pos hl this
+
+/-- Weibull: the quantile respects the finite support bound(s) -/
+theorem weibull_inverse_cdf_mem (d : Weibull ℝ) (hk : 0 < d.f_shape) (hs : 0 < d.f_scale)
+    (hi : d.f_scale_pow_shape_inv = d.f_scale ^ (-d.f_shape)) (p : ℝ) (hp0 : 0 < p) (hp1 : p < 1) :
+    Weibull.min d ≤ Weibull.inverse_cdf d p := by
+  rw [weibull_inverse_cdf_eq d p hp0 hp1]
+  unfold Weibull.min
+  norm_num
+  exact Real.rpow_nonneg (weibull_base_pos d hk hs hi p hp0 hp1).le _
+
+/-- Weibull: cdf ∘ inverse_cdf = id on (0,1) -/
+theorem weibull_cdf_inverse_cdf (d : Weibull ℝ) (hk : 0 < d.f_shape) (hs : 0 < d.f_scale)
+    (hi : d.f_scale_pow_shape_inv = d.f_scale ^ (-d.f_shape)) (p : ℝ) (hp0 : 0 < p) (hp1 : p < 1) :
+    Weibull.cdf d (Weibull.inverse_cdf d p) = p := by
+  rw [weibull_inverse_cdf_eq d p hp0 hp1]
+  have hb := weibull_base_pos d hk hs hi p hp0 hp1
+  unfold Weibull.cdf
+  rfun_norm
+  have h1 : ¬ ((-(Real.log (1 - p) / d.f_scale_pow_shape_inv)) ^ (1 / d.f_shape) < (0.0:ℝ)) := by
+    norm_num
+    exact Real.rpow_nonneg hb.le _
+  rw [if_neg h1, ← Real.rpow_mul hb.le]
+  have : 1 / d.f_shape * d.f_shape = 1 := by field_simp
+  rw [this, Real.rpow_one]
+  have hpos : 0 < d.f_scale_pow_shape_inv := by rw [hi]; exact Real.rpow_pos_of_pos hs _
+  have e : - -(Real.log (1 - p) / d.f_scale_pow_shape_inv) * d.f_scale_pow_shape_inv = Real.log (1 - p) := by
+    field_simp
+  rw [e, Real.exp_log (by linarith)]
+  ring
+
+/-- Weibull: the quantile is strictly increasing on (0,1) -/
+theorem weibull_inverse_cdf_strictMono (d : Weibull ℝ) (hk : 0 < d.f_shape) (hs : 0 < d.f_scale)
+    (hi : d.f_scale_pow_shape_inv = d.f_scale ^ (-d.f_shape)) (p q : ℝ) (hp0 : 0 < p) (hpq : p < q) (hq1 : q < 1) :
+    Weibull.inverse_cdf d p < Weibull.inverse_cdf d q := by
+  rw [weibull_inverse_cdf_eq d p hp0 (by linarith), weibull_inverse_cdf_eq d q (by linarith) hq1]
+  have hb := weibull_base_pos d hk hs hi p hp0 (by linarith)
+  have hpos : 0 < d.f_scale_pow_shape_inv := by rw [hi]; exact Real.rpow_pos_of_pos hs _
+  have hl : Real.log (1 - q) < Real.log (1 - p) := Real.log_lt_log (by linarith) (by linarith)
+  apply Real.rpow_lt_rpow hb.le
+  · rw [neg_lt_neg_iff]; exact div_lt_div_of_pos_right hl hpos
+  · positivity
+
+example : ∃ d : Weibull ℝ, 0 < d.f_shape ∧ 0 < d.f_scale ∧ d.f_scale_pow_shape_inv = d.f_scale ^ (-d.f_shape) :=
+  ⟨⟨1, 1, 1⟩, by norm_num⟩
+
+/-! ## Triangular (constructor: min ≤ mode ≤ max, min ≠ max) -/
+
+/-- Triangular: closed form of the quantile on (0,1) (routes around the panic branch) -/
+theorem triangular_inverse_cdf_eq (d : Triangular ℝ) (p : ℝ) (hp0 : 0 < p) (hp1 : p < 1) :
+    Triangular.inverse_cdf d p =
+      if p < (d.f_mode - d.f_min) / (d.f_max - d.f_min)
+      then d.f_min + Real.sqrt ((d.f_mode - d.f_min) * (d.f_max - d.f_min) * p)
+      else d.f_max - Real.sqrt ((d.f_max - d.f_min) * (d.f_max - d.f_mode) * (1 - p)) := by
+  unfold Triangular.inverse_cdf
+  rfun_norm
+  have h1 : ¬ ¬ ((0.0:ℝ) ≤ p ∧ p ≤ (1.0:ℝ)) := by norm_num; exact ⟨hp0.le, hp1.le⟩
+  simp only [if_neg h1]
+  norm_num
+
+/-- Triangular: cdf ∘ inverse_cdf = id on (0,1) -/
+theorem triangular_cdf_inverse_cdf (d : Triangular ℝ) (h1 : d.f_min ≤ d.f_mode) (h2 : d.f_mode ≤ d.f_max)
+    (h3 : d.f_min ≠ d.f_max) (p : ℝ) (hp0 : 0 < p) (hp1 : p < 1) :
+    Triangular.cdf d (Triangular.inverse_cdf d p) = p := by
+  rw [triangular_inverse_cdf_eq d p hp0 hp1]
+  have hab : d.f_min < d.f_max := lt_of_le_of_ne (h1.trans h2) h3
+  unfold Triangular.cdf
+  simp only []
+  by_cases hb : p < (d.f_mode - d.f_min) / (d.f_max - d.f_min)
+  · simp only [if_pos hb]
+    obtain ⟨hac, hs0, hs1⟩ := tri_lower _ _ _ p hab hp0 hb
+    rw [if_neg (by linarith), if_pos (by linarith)]
+    have : (d.f_min + Real.sqrt ((d.f_mode - d.f_min) * (d.f_max - d.f_min) * p) - d.f_min) = Real.sqrt ((d.f_mode - d.f_min) * (d.f_max - d.f_min) * p) := by ring
+    rw [this, Real.mul_self_sqrt (by have : 0 < d.f_mode - d.f_min := by linarith
+                                     have : 0 < d.f_max - d.f_min := by linarith
+                                     positivity)]
+    have : d.f_mode - d.f_min ≠ 0 := by linarith
+    have : d.f_max - d.f_min ≠ 0 := by linarith
+    field_simp
+  · simp only [if_neg hb]
+    obtain ⟨hcb, hs0, hs1⟩ := tri_upper _ _ _ p hab h2 hp1 hb
+    have hnn : 0 ≤ (d.f_max - d.f_min) * (d.f_max - d.f_mode) * (1 - p) := by
+      have : 0 < d.f_max - d.f_min := by linarith
+      have : 0 < d.f_max - d.f_mode := by linarith
+      have : 0 < 1 - p := by linarith
+      positivity
+    have hlt : Real.sqrt ((d.f_max - d.f_min) * (d.f_max - d.f_mode) * (1 - p)) < d.f_max - d.f_min := by
+      rw [Real.sqrt_lt' (by linarith)]
+      have : 0 < d.f_max - d.f_min := by linarith
+      have : (d.f_max - d.f_mode) * (1 - p) < d.f_max - d.f_min := by nlinarith
+      nlinarith
+    rw [if_neg (by linarith)]
+    by_cases hx : d.f_max - Real.sqrt ((d.f_max - d.f_min) * (d.f_max - d.f_mode) * (1 - p)) ≤ d.f_mode
+    · rw [if_pos hx]
+      have hs : Real.sqrt ((d.f_max - d.f_min) * (d.f_max - d.f_mode) * (1 - p)) = d.f_max - d.f_mode := by linarith
+      have hsq := Real.mul_self_sqrt hnn
+      rw [hs] at hsq ⊢
+      have hba : d.f_max - d.f_min ≠ 0 := by linarith
+      have hbc : d.f_max - d.f_mode ≠ 0 := by linarith
+      have hp : 1 - p = (d.f_max - d.f_mode) / (d.f_max - d.f_min) := by
+        field_simp
+        have : (d.f_max - d.f_mode) * ((d.f_max - d.f_min) * (1 - p)) = (d.f_max - d.f_mode) * (d.f_max - d.f_mode) := by linarith
+        have := mul_left_cancel₀ hbc this
+        linarith
+      have hca : d.f_mode - d.f_min ≠ 0 := by
+        intro h0
+        have : d.f_mode = d.f_min := by linarith
+        rw [this] at hp
+        have : (d.f_max - d.f_min) / (d.f_max - d.f_min) = 1 := div_self hba
+        linarith
+      have hpp : p = (d.f_mode - d.f_min) / (d.f_max - d.f_min) := by
+        have : p = 1 - (d.f_max - d.f_mode) / (d.f_max - d.f_min) := by linarith
+        rw [this]; field_simp; ring
+      rw [hpp]
+      field_simp
+      ring
+    · rw [if_neg hx, if_pos (by linarith)]
+      have : d.f_max - (d.f_max - Real.sqrt ((d.f_max - d.f_min) * (d.f_max - d.f_mode) * (1 - p))) = Real.sqrt ((d.f_max - d.f_min) * (d.f_max - d.f_mode) * (1 - p)) := by ring
+      rw [this, Real.mul_self_sqrt hnn]
+      have hba : d.f_max - d.f_min ≠ 0 := by linarith
+      have hbc : d.f_max - d.f_mode ≠ 0 := by linarith
+      field_simp
+      norm_num
+
+/-- Triangular: the quantile respects the finite support bound(s) -/
+theorem triangular_inverse_cdf_mem (d : Triangular ℝ) (h1 : d.f_min ≤ d.f_mode) (h2 : d.f_mode ≤ d.f_max)
+    (h3 : d.f_min ≠ d.f_max) (p : ℝ) (hp0 : 0 < p) (hp1 : p < 1) :
+    Triangular.min d ≤ Triangular.inverse_cdf d p ∧ Triangular.inverse_cdf d p ≤ Triangular.max d := by
+  rw [triangular_inverse_cdf_eq d p hp0 hp1]
+  have hab : d.f_min < d.f_max := lt_of_le_of_ne (h1.trans h2) h3
+  unfold Triangular.min Triangular.max
+  split_ifs with hb
+  · obtain ⟨hac, hs0, hs1⟩ := tri_lower _ _ _ p hab hp0 hb
+    constructor <;> linarith
+  · obtain ⟨hcb, hs0, hs1⟩ := tri_upper _ _ _ p hab h2 hp1 hb
+    constructor <;> linarith
+
+/-- Triangular: the quantile is strictly increasing on (0,1) -/
+theorem triangular_inverse_cdf_strictMono (d : Triangular ℝ) (h1 : d.f_min ≤ d.f_mode) (h2 : d.f_mode ≤ d.f_max)
+    (h3 : d.f_min ≠ d.f_max) (p q : ℝ) (hp0 : 0 < p) (hpq : p < q) (hq1 : q < 1) :
+    Triangular.inverse_cdf d p < Triangular.inverse_cdf d q := by
+  rw [triangular_inverse_cdf_eq d p hp0 (by linarith), triangular_inverse_cdf_eq d q (by linarith) hq1]
+  have hab : d.f_min < d.f_max := lt_of_le_of_ne (h1.trans h2) h3
+  have hba : 0 < d.f_max - d.f_min := by linarith
+  split_ifs with ha hb hb
+  · obtain ⟨hac, _, _⟩ := tri_lower _ _ _ p hab hp0 ha
+    have : Real.sqrt ((d.f_mode - d.f_min) * (d.f_max - d.f_min) * p) < Real.sqrt ((d.f_mode - d.f_min) * (d.f_max - d.f_min) * q) := by
+      apply Real.sqrt_lt_sqrt
+      · have : 0 < d.f_mode - d.f_min := by linarith
+        positivity
+      · have : 0 < (d.f_mode - d.f_min) * (d.f_max - d.f_min) := by
+          have : 0 < d.f_mode - d.f_min := by linarith
+          positivity
+        nlinarith
+    linarith
+  · obtain ⟨_, _, hs1⟩ := tri_lower _ _ _ p hab hp0 ha
+    obtain ⟨_, _, hs2⟩ := tri_upper _ _ _ q hab h2 hq1 hb
+    linarith
+  · exfalso; linarith
+  · obtain ⟨hcb, _, _⟩ := tri_upper _ _ _ q hab h2 hq1 hb
+    have : Real.sqrt ((d.f_max - d.f_min) * (d.f_max - d.f_mode) * (1 - q)) < Real.sqrt ((d.f_max - d.f_min) * (d.f_max - d.f_mode) * (1 - p)) := by
+      apply Real.sqrt_lt_sqrt
+      · have : 0 < d.f_max - d.f_mode := by linarith
+        have : 0 < 1 - q := by linarith
+        positivity
+      · have : 0 < (d.f_max - d.f_min) * (d.f_max - d.f_mode) := by
+          have : 0 < d.f_max - d.f_mode := by linarith
+          positivity
+        nlinarith
+    linarith
+
+example : ∃ d : Triangular ℝ, d.f_min ≤ d.f_mode ∧ d.f_mode ≤ d.f_max ∧ d.f_min ≠ d.f_max :=
+  ⟨⟨0, 1, 0⟩, by norm_num⟩
 
 end Statrs.Props.C05
